@@ -132,3 +132,66 @@ Example func_env_ex :
   resolve nat "gorules" ["isPtr"; "describe"] (register nat "gorules" [("isPtr", 1); ("describe", 2)] []) = Some [1; 2]
   /\ resolve nat "lintrules" ["isPtr"] (register nat "gorules" [("isPtr", 1); ("describe", 2)] []) = None.
 Proof. split; vm_compute; reflexivity. Qed.
+
+(* ------------------------------------------------------------------ the rules package under LoadFromIR
+   A file loaded from IR has no type-checked rules package (Load hands the loader one: config.pkg); compileFilterFuncs
+   installs the package of the compiled declarations in its place. What matters is WHERE in the function that happens:
+   every way out of it that is a success, for a file that has declarations, must lie behind the installation --
+   whether or not there was any function to compile. The statements of the function (top level, in order) are
+   regenerated as cff_steps; cff_exits enumerates the ways out. *)
+Inductive cff_step :=
+| CGuardNoDecls     (* if len(irfile.CustomDecls) == 0 { return nil } *)
+| CLoad             (* f, err := goutil.LoadGoFile(...) of the synthesized file *)
+| CErrExit          (* a statement whose only way out of the function is an error *)
+| CFallback         (* if l.pkg == nil { l.pkg = f.Pkg } *)
+| CMayReturnOk      (* a statement that may leave the function with `return nil` *)
+| CMayFail          (* a statement that may leave the function with an error, or go on *)
+| COther            (* no return inside *)
+| CReturnOk         (* return nil *)
+| CReturnErr.       (* return <error> *)
+
+(* (success?, stand-in installed?) for every way out; `decls`: the file has custom declarations; `pkg`: l.pkg is set *)
+Fixpoint cff_exits (decls pkg : bool) (ss : list cff_step) : list (bool * bool) :=
+  match ss with
+  | [] => [(true, pkg)]
+  | CGuardNoDecls :: r => if decls then cff_exits decls pkg r else [(true, pkg)]
+  | CLoad :: r | COther :: r => cff_exits decls pkg r
+  | CErrExit :: r | CMayFail :: r => (false, pkg) :: cff_exits decls pkg r
+  | CFallback :: r => cff_exits decls true r
+  | CMayReturnOk :: r => (true, pkg) :: cff_exits decls pkg r
+  | CReturnOk :: _ => [(true, pkg)]
+  | CReturnErr :: _ => [(false, pkg)]
+  end.
+
+Definition cff_ok (ss : list cff_step) : bool :=
+  forallb (fun e : bool * bool => negb (fst e) || snd e) (cff_exits true false ss)
+  && existsb (fun e : bool * bool => fst e) (cff_exits true false ss).
+
+(* with declarations and no rules package given: every success leaves the stand-in installed, and success is possible *)
+Theorem stand_in_on_every_success ss :
+  cff_ok ss = true ->
+  (forall e, In e (cff_exits true false ss) -> fst e = true -> snd e = true)
+  /\ (exists e, In e (cff_exits true false ss) /\ fst e = true).
+Proof.
+  unfold cff_ok. intros H. apply andb_prop in H as [A B]. split.
+  - intros e Hin Hs. rewrite forallb_forall in A. specialize (A e Hin). rewrite Hs in A. exact A.
+  - apply existsb_exists in B. destruct B as (e & Hin & Hs). exists e. split; assumption.
+Qed.
+
+(* a rules package that was given (Load) is never replaced *)
+Lemma given_package_kept ss : forall decls e, In e (cff_exits decls true ss) -> snd e = true.
+Proof.
+  induction ss as [|s r IH]; intros decls e Hin; cbn [cff_exits] in Hin.
+  - destruct Hin as [<-|[]]. reflexivity.
+  - destruct s; cbn in Hin;
+      try (destruct decls; [apply (IH _ _ Hin)|destruct Hin as [<-|[]]; reflexivity]);
+      try (apply (IH _ _ Hin));
+      try (destruct Hin as [<-|Hin]; [reflexivity|apply (IH _ _ Hin)]);
+      try (destruct Hin as [<-|[]]; reflexivity).
+Qed.
+
+(* the function as it stands today, and the same with an early success in front of the installation *)
+Example cff_ex :
+  cff_ok [CGuardNoDecls; COther; CLoad; CErrExit; CFallback; COther; CMayFail; CReturnOk] = true
+  /\ cff_ok [CGuardNoDecls; COther; CLoad; CErrExit; COther; CMayReturnOk; CFallback; CMayFail; CReturnOk] = false.
+Proof. split; reflexivity. Qed.
